@@ -86,6 +86,10 @@ type world struct {
 	commitOf   map[[3]int]int // (node, sched, val) -> commit index
 	letters    []letter
 	excluded   []string // letters the real VerifyExecutorCommitment rejects
+	// verifyLayer: commitments that do not belong to this round (another round, another parent block, signed for
+	// another runtime, by another key) which the real VerifyExecutorCommitment nevertheless accepted
+	verifyLayer      []string
+	verifyLayerCases int
 	names      []string
 }
 
@@ -214,6 +218,40 @@ func newWorld(sh shape) (*world, error) {
 						w.excluded = append(w.excluded, fmt.Sprintf("%s: %v", w.letterString(l), err))
 					}
 					continue
+				}
+				// Header variants of this (accepted) commitment that do not belong to the round being voted on
+				// must be refused by the same verification: the pool computes ranks and counts votes under the
+				// assumption that every commitment it is given is for exactly the block after the last one.
+				for _, vr := range []string{"round+1", "round+2", "round-1", "round=0", "other-parent", "other-runtime", "signed-by-other-node"} {
+					bad := w.makeCommitment(nd, sc, v)
+					signer, rid := signers[nd], runtimeID
+					switch vr {
+					case "round+1":
+						bad.Header.Header.Round++
+					case "round+2":
+						bad.Header.Header.Round += 2
+					case "round-1":
+						bad.Header.Header.Round--
+					case "round=0":
+						bad.Header.Header.Round = 0
+					case "other-parent":
+						bad.Header.Header.PreviousHash = hash.NewFromBytes([]byte("poolmc another parent"))
+					case "other-runtime":
+						rid = common.NewTestNamespaceFromSeed([]byte("poolmc another runtime"), 0)
+					case "signed-by-other-node":
+						signer = signers[(nd+1)%len(signers)]
+						bad.NodeID = signer.Public()
+					}
+					if err := bad.Sign(signer, rid); err != nil {
+						return nil, fmt.Errorf("sign: %w", err)
+					}
+					if vr == "signed-by-other-node" {
+						bad.NodeID = w.keys[nd]
+					}
+					w.verifyLayerCases++
+					if err := commitment.VerifyExecutorCommitment(ctx, w.blk, w.rt, c.ValidFor, bad, nil, nil); err == nil {
+						w.verifyLayer = append(w.verifyLayer, fmt.Sprintf("%s with %s is accepted by VerifyExecutorCommitment (last block round %d)", w.letterString(l), vr, w.blk.Header.Round))
+					}
 				}
 				l.commit = len(w.commits)
 				w.commitIdx[ec] = l.commit
